@@ -1,4 +1,5 @@
 import GateModel.C04.Model
+import GateModel.C04.NumBounds
 import GateModel.C03.Lemmas
 /-
 C04 — the generic round-trip theorem of the schema interpreter, by induction over `Schema`.
@@ -275,5 +276,23 @@ theorem packet_RT (ps : PSchema) (v : Val) (h : ps.wf v) : ps.decode (ps.encode 
     simp only [Val.fst, Val.snd, Val.getBytes]
     rw [schema_RT ps.body x r hx]
     simp [hm]
+
+/-! ## brigadier number bounds -/
+
+theorem numBounds_RT (k : NumKind) (mn mx : Val) (rest : Bytes) (h1 : k.leaf.wf mn) (h2 : k.leaf.wf mx) :
+    nbDecode k (nbEncode k mn mx ++ rest) = .ok ((mn, mx), rest) := by
+  unfold nbDecode nbEncode nbFlag
+  by_cases hmn : mn = k.lo <;> by_cases hmx : mx = k.hi
+  · subst hmn; subst hmx
+    simp [readByte]
+  · subst hmn
+    have := prim_RT k.leaf mx rest h2
+    simp [readByte, hmx, this]
+  · subst hmx
+    have := prim_RT k.leaf mn rest h1
+    simp [readByte, hmn, this]
+  · have e1 := prim_RT k.leaf mn (k.leaf.enc mx ++ rest) h1
+    have e2 := prim_RT k.leaf mx rest h2
+    simp [readByte, hmn, hmx, e1, e2]
 
 end Gate.C04
